@@ -255,8 +255,12 @@ func batch(t *testing.T, e Engine) {
 	skeys := map[uint64]struct{}{}
 	seenViol := map[string]bool{}
 	start := time.Now()
+	// The budget is wall-clock time, but a loaded machine must not silently shrink the search:
+	// the worker keeps going until it has done its share of the check's minimum number of runs
+	// (never beyond five times the budget).
+	minRuns := int(envInt("VERIF_MINRUNS", 0))
 	for i := 0; i < maxRuns; i++ {
-		if time.Since(start) > budget {
+		if el := time.Since(start); el > budget && (i >= minRuns || el > 5*budget) {
 			break
 		}
 		idx := uint64(widx + i*stride)
